@@ -1,4 +1,4 @@
-use super::swift_utils::{parse_amount, parse_date_yymmdd, parse_swift_chars};
+use super::swift_utils::{parse_amount_max_len, parse_date_yymmdd, parse_swift_chars};
 use crate::errors::ParseError;
 use crate::traits::SwiftField;
 use chrono::NaiveDate;
@@ -125,7 +125,7 @@ impl SwiftField for Field61 {
         }
 
         let amount_str = &input[amount_start..pos];
-        let amount = parse_amount(amount_str)?;
+        let amount = parse_amount_max_len(amount_str, 15)?;
 
         // Parse transaction type (4 characters: 1!a3!c)
         if pos + 4 > input.len() {
